@@ -4,6 +4,7 @@ import (
 	"context"
 	"errors"
 	"fmt"
+	"os"
 	"strings"
 	"time"
 
@@ -222,6 +223,7 @@ func runSyncer(prop, tier string, r *rng) {
 		for _, heads := range [][]int{{20, 21, 25}, {30, 31}, {15, 40, 41, 42}} {
 			burstCase(prop, heads)
 		}
+		appendRaceCase(prop, 20, 30)
 	}
 	// fixed scenarios
 	syncerCase(prop, 10, 0, nil, []string{"gossip valid 11", "gossip valid 12", "gossip valid 20", "wait", "gossip valid 15", "gossip forged 25", "gossip valid 30", "wait"})
@@ -321,6 +323,87 @@ func burstCase(prop string, heads []int) {
 	cancel2()
 	emit("%s kind=burst heads=%s => verdicts=%s %s syncwait=%s", prop, strings.Join(hs, ","), strings.Join(verdicts, ","), run.observe(),
 		map[bool]string{true: "ok", false: "timeout"}[werr == nil])
+	_ = run.s.Stop(ctx)
+	c2, cancel3 := context.WithTimeout(ctx, time.Second)
+	_ = run.st.Stop(c2)
+	cancel3()
+}
+
+// appendRaceCase: the gossip handler is stopped inside syncStore.Append for header storeTo+1 (after it loaded the
+// store head, before it publishes the new one) while a newer head learned through Head() lets the sync loop run
+// ahead; then the handler goes on.  Nothing may move backwards and the target must still be reached.
+func appendRaceCase(prop string, storeTo, target int) {
+	ctx := context.Background()
+	run := newSyncRun(storeTo)
+	run.s.VerifSetPolicy(100*time.Hour, time.Second, time.Millisecond) // the stored head is never "recent": Head() asks the network
+	netHead := storeTo                                                 // what the trusted peers report as the network head
+	run.g.headFn = func(*vhdr.Header) (*vhdr.Header, error) { return run.chain[netHead-1], nil }
+	sctx, cancel := context.WithTimeout(ctx, 3*time.Second)
+	err := run.s.Start(sctx)
+	cancel()
+	if err != nil {
+		emit("%s kind=appendrace store=%d target=%d => start=err", prop, storeTo, target)
+		return
+	}
+	run.quiesce()
+	c := run.chain[storeTo]
+	gated := &vhdr.Header{Chain: c.Chain, H: c.H, T: c.T, Prev: c.Prev, Salt: c.Salt, VK: c.VK, ParkIn: "syncStore", Parked: make(chan struct{}), Release: make(chan struct{})}
+	gdone := make(chan string, 1)
+	go func() {
+		if err := run.sub.verifier(ctx, gated); err != nil {
+			if os.Getenv("VERIF_DEBUG") != "" {
+				fmt.Fprintln(os.Stderr, "appendrace gossip error:", err)
+			}
+			gdone <- "refuse"
+		} else {
+			gdone <- "accept"
+		}
+	}()
+	parked := "yes"
+	select {
+	case <-gated.Parked:
+	case <-time.After(2 * time.Second):
+		parked = "no"
+	}
+	// a newer head arrives through Head() (not serialised with the gossip handler)
+	netHead = target
+	hdone := make(chan string, 1)
+	go func() {
+		// (Head() itself ends in incomingNetworkHead, which waits for the parked gossip handler's lock)
+		hctx, cancelH := context.WithTimeout(ctx, 10*time.Second)
+		defer cancelH()
+		if h, err := run.s.Head(hctx); err == nil && h != nil {
+			hdone <- utoa(h.H)
+		} else {
+			hdone <- "err"
+		}
+	}()
+	run.quiesce()
+	mid := uint64(0)
+	if h, err := run.st.Head(ctx); err == nil {
+		mid = h.H
+	}
+	close(gated.Release)
+	gres := "hang"
+	select {
+	case gres = <-gdone:
+	case <-time.After(3 * time.Second):
+	}
+	hres := "hang"
+	select {
+	case hres = <-hdone:
+	case <-time.After(5 * time.Second):
+	}
+	run.quiesce()
+	// public view afterwards
+	h2 := "err"
+	hctx2, cancelH2 := context.WithTimeout(ctx, 3*time.Second)
+	if h, err := run.s.Head(hctx2); err == nil && h != nil {
+		h2 = utoa(h.H)
+	}
+	cancelH2()
+	run.quiesce()
+	emit("%s kind=appendrace store=%d target=%d => start=ok parked=%s head1=%s mid=%d gossip=%s head2=%s %s", prop, storeTo, target, parked, hres, mid, gres, h2, run.observe())
 	_ = run.s.Stop(ctx)
 	c2, cancel3 := context.WithTimeout(ctx, time.Second)
 	_ = run.st.Stop(c2)
